@@ -20,11 +20,15 @@ type c14Group[P any] struct {
 	neg     func(P) P
 	eq      func(P, P) bool
 	isid    func(P) bool
-	smul    func(P, *big.Int) P        // through the Scalar type (k is reduced mod n)
-	smulRaw func(P, []byte) P          // aimpl.ScalarMulLowLevel on raw little-endian bytes
-	baseMul func(*big.Int) P           // nil if the type has none
+	smul    func(P, *big.Int) P // through the Scalar type (k is reduced mod n)
+	smulRaw func(P, []byte) P   // aimpl.ScalarMulLowLevel on raw little-endian bytes
+	baseMul func(*big.Int) P    // nil if the type has none
 	msm     func([]*big.Int, []P) (P, error)
 	extra   []P // exceptional points specific to the curve (small order)
+	// window stream (c14_window.go)
+	msmRaw func([][]byte, []P) P // aimpl.MultiScalarMulLowLevel on raw little-endian byte strings
+	auSmul func(P, []byte) P     // algebrautils.ScalarMul, exponent = raw big-endian bytes
+	auMsm  func([][]byte, []P) P // algebrautils.MultiScalarMul, scalars = raw big-endian bytes
 }
 
 type c14PointAPI[P any, S any] interface {
@@ -50,7 +54,10 @@ func isNilPtr(x any) bool {
 	return v.Kind() == reflect.Ptr && v.IsNil()
 }
 
-func mkGroup[P c14PointAPI[P, S], S algebra.PrimeFieldElement[S], C c14CurveAPI[P, S]](cn string, cv C, str func(P) string, raw func(P, []byte) P) *c14Group[P] {
+func mkGroup[P interface {
+	c14PointAPI[P, S]
+	algebra.MonoidElement[P]
+}, S algebra.PrimeFieldElement[S], C c14CurveAPI[P, S]](cn string, cv C, str func(P) string, raw func(P, []byte) P) *c14Group[P] {
 	sf := cv.ScalarField()
 	return &c14Group[P]{
 		cn: cn, n: fieldOrder(sf), id: cv.OpIdentity(), gen: cv.Generator(), str: str,
@@ -70,6 +77,8 @@ func mkGroup[P c14PointAPI[P, S], S algebra.PrimeFieldElement[S], C c14CurveAPI[
 			}
 			return cv.MultiScalarMul(scs, ps)
 		},
+		auSmul: c14AuSmul[P],
+		auMsm:  c14AuMsm[P],
 	}
 }
 
